@@ -34,11 +34,23 @@ def calls_named(b, *n):
 def continue_guard(F, P, b, hook_bb, target_bb):
     """is target_bb dominated by the Continue edge of a `?` on the awaited result of the call at hook_bb?"""
     pred = lambda x: any(r == ('call', b.id, hook_bb) for r, _ in P.root(x))
-    return bool(guarded_by_variant(F, P, b, target_bb, pred, ['Continue']))
+    return bool(guarded_by_variant(F, P, b, target_bb, pred, ['Continue', 'Ok']))
 
 
 def ret_roots(P, b):
     return P.root(P._local_whole(b, 0))
+
+
+def is_error_of(P, b, r, p, hook_bb):
+    """is the return alternative (r, p) the error of the awaited call at hook_bb — the residual of `?`, or an Err(..) rebuilt from that call's Err payload?"""
+    call = ('call', b.id, hook_bb)
+    if P.unbound(r) == call and (('t', '?err') in p or ('v', 'Err') in p):
+        return True
+    ru = P.unbound(r)
+    if ru[0] == 'agg' and P._agg_rv(ru).get('variant') == 'Err':
+        inner = P.root(P._field(r, 0, 0))
+        return bool(inner) and all(P.unbound(x) == call and (('v', 'Err') in q or ('t', '?err') in q) for x, q in inner)
+    return False
 
 
 def run(ctx):
@@ -64,8 +76,8 @@ def run(ctx):
         R.ob('C19.before', ('HookThenServe::serve', 'serve only on Continue'), continue_guard(F, P, hs, bb_b, bb_s),
              'the handler is not invoked when the hook fails (serve is dominated by the Continue edge of the hook result)', [hs.loc(ts)])
         rr = ret_roots(P, hs)
-        ok = bool(rr) and all((r == ('call', hs.id, bb_s) and ('t', 'await') in p) or (r == ('call', hs.id, bb_b) and ('t', '?err') in p) for r, p in rr)
-        R.ob('C19.before', ('HookThenServe::serve', 'hook error becomes the response'), ok and any(r == ('call', hs.id, bb_b) for r, _ in rr),
+        ok = bool(rr) and all((r == ('call', hs.id, bb_s) and ('t', 'await') in p) or is_error_of(P, hs, r, p, bb_b) for r, p in rr)
+        R.ob('C19.before', ('HookThenServe::serve', 'hook error becomes the response'), ok and any(is_error_of(P, hs, r, p, bb_b) for r, p in rr),
              'the value returned is either serve\'s result or the residual of the hook\'s error', [hs.loc(hs.d)], str([P.describe(r) + str(p) for r, p in rr]))
         lc_b = base_local(hs, P, tb['args'][1])
         lc_s = base_local(hs, P, ts['args'][1])
@@ -106,8 +118,12 @@ def run(ctx):
             ok = bool(rr)
             seen_err = set()
             for r, p in rr:
-                if r in (('call', cons.id, b0), ('call', cons.id, b1)) and ('t', '?err') in p:
-                    seen_err.add(r)
+                if is_error_of(P, cons, r, p, b0):
+                    seen_err.add(('call', cons.id, b0))
+                elif is_error_of(P, cons, r, p, b1):
+                    seen_err.add(('call', cons.id, b1))
+                elif P.unbound(r) == ('call', cons.id, b1) and ('t', 'await') in p and not any(st[0] == 'v' and st[1] in ('Ok', 'Err', 'Continue', 'Break') for st in p):
+                    seen_err.add(('call', cons.id, b1))   # the rest's whole result is the chain's result (its error included)
                 elif r[0] == 'agg' and P._agg_rv(r)['variant'] == 'Ok':
                     pass
                 else:
@@ -302,9 +318,40 @@ def run(ctx):
         R.ob('C19.both', ('HookThenServeThenHook::serve', 'after sees the context before produced'), lb is not None and lb == la == ls,
              'before, serve and after all operate on the same context local', [hsh.loc(tb), hsh.loc(ta)], 'locals _%s _%s _%s' % (lb, ls, la))
         rr = ret_roots(P, hsh)
-        ok = bool(rr) and all((r == ('call', hsh.id, bs) and ('t', 'await') in p) or (r == ('call', hsh.id, bb_b) and ('t', '?err') in p) for r, p in rr)
-        R.ob('C19.both', ('HookThenServeThenHook::serve', 'before error becomes the response'), ok and any(r == ('call', hsh.id, bb_b) for r, _ in rr),
+        ok = bool(rr) and all((r == ('call', hsh.id, bs) and ('t', 'await') in p) or is_error_of(P, hsh, r, p, bb_b) for r, p in rr)
+        R.ob('C19.both', ('HookThenServeThenHook::serve', 'before error becomes the response'), ok and any(is_error_of(P, hsh, r, p, bb_b) for r, p in rr),
              'the value returned is serve\'s (after-edited) result or the residual of the before part\'s error', [hsh.loc(hsh.d)])
+    # ------------------------------------------------------------ the wrappers themselves never edit the context: only hooks do
+    # ("each seeing the context changes made by those before it": a wrapper that rewrites a field between two members hides or undoes such a change)
+    wrappers = [('HookThenServe::serve', hs), ('BeforeRequestCons::before', cons), ('ServeThenHook::serve', sh), ('HookThenServeThenHook::serve', hsh)]
+    for wname, b in wrappers:
+        ctx_locals = set()
+        for bb, t in b.calls():
+            if callee_is(t, 'BeforeRequest::before', 'AfterRequest::after', 'server::Serve::serve'):
+                l_ = base_local(b, P, t['args'][1])
+                if l_ is not None:
+                    ctx_locals.add(l_)
+        writes = []
+        for i, j, s_ in b.stmts():
+            pl = s_['pl']
+            if not pl['p'] or s_.get('expn'):
+                continue
+            has_field = any(e[0] == 'f' for e in pl['p'])
+            if not has_field:
+                continue
+            base_is_ctx = pl['l'] in ctx_locals
+            if not base_is_ctx and any(e[0] == 'd' for e in pl['p']):
+                # a write through a reference: is it a reference to the context?
+                for r_, p_ in P.root(P.local(b, pl['l'], at=i)):
+                    ru_ = P.unbound(r_)
+                    if ru_[0] == 'param' and 'context::Context' in b.local_ty(ru_[2]) and ru_[1] == b.id:
+                        base_is_ctx = True
+                    if ru_[0] == 'param' and b.kind != 'Fn' and 'Context' in str(F.fns[ru_[1]].local_ty(ru_[2])):
+                        base_is_ctx = True
+            if base_is_ctx and 'Context' in b.local_ty(pl['l']):
+                writes.append(b.loc(s_))
+        R.ob('C19.ctx', (wname, 'the wrapper itself does not edit the context'), not writes,
+             'only hooks (and the handler) change the request context; the wrapper passes it on untouched, so every later hook sees exactly what the earlier ones produced', writes or [b.loc(b.d)])
     R.info['bodies_analysed'] = analysed
     R.count('functions_analysed', len(analysed))
     if len(analysed) < 5:
